@@ -356,14 +356,49 @@ package git
 //@ func (*Repository).GitPath
 //@   pure
 //@   call 0 GitCommand assert len(arg_1) == 3 && arg_1[0] == "rev-parse" && arg_1[1] == "--git-path" && same(arg_1[2], relPath)
+// gitconfig scalars (C14): the value is what `git config --get [--bool|--int]
+// <key>` prints, for exactly the key asked for; git's "not set" (exit status 1,
+// A-GIT-CONFIG-GET) yields the default without an error; every other failure
+// is an error (C10).
 //@ func (*Repository).ConfigStringDefault
 //@   pure
+//@   call 0 GitCommand assert len(arg_1) == 3 && arg_1[0] == "config" && arg_1[1] == "--get" && same(arg_1[2], key)
+//@   call 0 Cmd).Output as out
+//@   ensures out1 == nil && (len(out0) == 0 || out0[len(out0)-1] != 10) ==> result1 == nil && len(result0) == len(out0)
+//@   ensures out1 == nil && len(out0) > 0 && out0[len(out0)-1] == 10 ==> result1 == nil && len(result0) == len(out0) - 1
+//@   ensures out1 == nil ==> forall k int :: 0 <= k && k < len(result0) ==> result0[k] == out0[k]
+//@   ensures out1 != nil ==> same(result0, defaultValue)
 //@ func (*Repository).ConfigBoolDefault
 //@   pure
+//@   call 0 GitCommand assert len(arg_1) == 4 && arg_1[0] == "config" && arg_1[1] == "--get" && arg_1[2] == "--bool" && same(arg_1[3], key)
+//@   call 0 Cmd).Output as out
+//@   call 0 bytes.TrimSpace assert same(arg_0, out0)
+//@   call 0 strconv.ParseBool as pb
+//@   ensures out1 == nil && pb_reached && pb1 == nil ==> result1 == nil && result0 == pb0
+//@   ensures out1 == nil && pb_reached && pb1 != nil ==> result1 != nil
+//@   ensures out1 != nil ==> result0 == defaultValue
 //@ func (*Repository).ConfigIntDefault
 //@   pure
+//@   call 0 GitCommand assert len(arg_1) == 4 && arg_1[0] == "config" && arg_1[1] == "--get" && arg_1[2] == "--int" && same(arg_1[3], key)
+//@   call 0 Cmd).Output as out
+//@   call 0 bytes.TrimSpace assert same(arg_0, out0)
+//@   call 0 strconv.Atoi as pi
+//@   ensures out1 == nil && pi_reached && pi1 == nil ==> result1 == nil && result0 == pi0
+//@   ensures out1 == nil && pi_reached && pi1 != nil ==> result1 != nil
+//@   ensures out1 != nil ==> result0 == defaultValue
+// An explicit ROOT is what `git rev-parse --verify --end-of-options <name>`
+// resolves it to (the option terminator keeps a ROOT that looks like an option
+// from being read as one); a failure of git or an answer that is not an object
+// id is an error (C10: an invalid ROOT).
 //@ func (*Repository).ResolveObject
 //@   pure
+//@   call 0 GitCommand assert len(arg_1) == 4 && arg_1[0] == "rev-parse" && arg_1[1] == "--verify" && arg_1[2] == "--end-of-options" && same(arg_1[3], name)
+//@   call 0 Cmd).Output as out
+//@   call 0 bytes.TrimSpace assert same(arg_0, out0)
+//@   call 0 NewOID as id
+//@   ensures out1 != nil ==> result1 != nil
+//@   ensures out1 == nil ==> id_reached && (result1 == nil) == (id1 == nil)
+//@   ensures result1 == nil ==> result0 == id0
 // The exact git command lines (C01: objects are enumerated from the roots on
 // stdin only — no --all/--reflog/--indexed-objects; C03: --date-order is what
 // A-GIT-ORDER is stated for; C09: output order is git's).
@@ -507,3 +542,7 @@ package git
 //@   ensures result1 == nil ==> made_reached && result0 == made0 && made1 == nil
 
 //@ property C13: smartJoin NewRepositoryFromPath
+
+//@ property C14: (*Repository).ConfigStringDefault (*Repository).ConfigBoolDefault (*Repository).ConfigIntDefault
+//@ property C10: (*Repository).ResolveObject ParseBatchHeader
+//@ property C01: (*Repository).ResolveObject ParseBatchHeader ParseReference
